@@ -854,6 +854,12 @@ class HistogramBase(abc.ABC):
             kwargs["missed"] = a_dict["missed"]
         if "missed_keep" in a_dict:
             kwargs["keep_missed"] = a_dict["missed_keep"]
+        shape = tuple(binning.bin_count for binning in kwargs["binnings"])
+        if 0 in shape:
+            # Nested lists cannot express a shape like (0, 3)
+            for key in ("frequencies", "errors2"):
+                if kwargs[key] is not None:
+                    kwargs[key] = np.asarray(kwargs[key], dtype=kwargs["dtype"]).reshape(shape)
         kwargs.update(a_dict.get("meta_data", {}))
         if len(kwargs["binnings"]) > 2:
             kwargs["dimension"] = len(kwargs["binnings"])
